@@ -1,0 +1,176 @@
+//! Verification seams (only compiled with `--features verif`).
+//!
+//! Two sources of nondeterminism are put behind thread-local seams so that an
+//! external harness can enumerate them: the random number generator used by the
+//! `*.RAND` paths and the code generator, and the clock used by the run loop.
+//! With no script / no virtual clock installed on the current thread every wrapper
+//! delegates to the real thing, so behaviour is unchanged.
+
+use rand::RngCore;
+use std::cell::RefCell;
+use std::time::{Duration, Instant};
+
+/// Panic message used when a scripted execution draws more often than its horizon
+/// allows (a rejection loop that does not terminate under the script).
+pub const HORIZON_MSG: &str = "VERIF_DRAW_HORIZON";
+
+struct Script {
+    answers: Vec<u32>,
+    draws: usize,
+    horizon: usize,
+    log: Vec<u32>,
+}
+
+thread_local! {
+    static SCRIPT: RefCell<Option<Script>> = RefCell::new(None);
+    static CLOCK_MS: RefCell<Option<u64>> = RefCell::new(None);
+}
+
+/// Default answer for draw `j` once the explicit answers are used up.
+pub fn default_answer(j: usize) -> u32 {
+    (j as u32).wrapping_add(1).wrapping_mul(0x9E37_79B9)
+}
+
+/// Installs a script of RNG answers on this thread. Draw `j` returns
+/// `answers[j]` if present and `default_answer(j)` otherwise. More than
+/// `horizon` draws panic with `HORIZON_MSG`.
+pub fn install_script(answers: Vec<u32>, horizon: usize) {
+    SCRIPT.with(|s| {
+        *s.borrow_mut() = Some(Script {
+            answers,
+            draws: 0,
+            horizon,
+            log: Vec::new(),
+        })
+    });
+}
+
+/// Removes the script and returns the answers that were actually handed out.
+pub fn clear_script() -> Vec<u32> {
+    SCRIPT.with(|s| match s.borrow_mut().take() {
+        Some(script) => script.log,
+        None => Vec::new(),
+    })
+}
+
+fn script_next() -> Option<u32> {
+    // Ok(None): no script; Ok(Some(v)): scripted answer; Err(()): horizon hit
+    let res: Result<Option<u32>, ()> = SCRIPT.with(|s| {
+        let mut guard = s.borrow_mut();
+        match guard.as_mut() {
+            None => Ok(None),
+            Some(script) => {
+                if script.draws >= script.horizon {
+                    return Err(());
+                }
+                let j = script.draws;
+                let v = if j < script.answers.len() {
+                    script.answers[j]
+                } else {
+                    default_answer(j)
+                };
+                script.draws += 1;
+                script.log.push(v);
+                Ok(Some(v))
+            }
+        }
+    });
+    match res {
+        Ok(v) => v,
+        // the script stays installed; the harness clears it
+        Err(()) => panic!("{}", HORIZON_MSG),
+    }
+}
+
+/// Wrapper that answers from the installed script, if any.
+pub struct VRng<R: RngCore> {
+    inner: R,
+}
+
+pub fn rng<R: RngCore>(inner: R) -> VRng<R> {
+    VRng { inner }
+}
+
+/// True if a script is installed on this thread.
+pub fn scripted() -> bool {
+    SCRIPT.with(|s| s.borrow().is_some())
+}
+
+impl<R: RngCore> RngCore for VRng<R> {
+    fn next_u32(&mut self) -> u32 {
+        match script_next() {
+            Some(v) => v,
+            None => self.inner.next_u32(),
+        }
+    }
+    fn next_u64(&mut self) -> u64 {
+        match script_next() {
+            Some(v) => (v as u64) << 32,
+            None => self.inner.next_u64(),
+        }
+    }
+    fn fill_bytes(&mut self, dest: &mut [u8]) {
+        if scripted() {
+            for chunk in dest.chunks_mut(4) {
+                let v = self.next_u32().to_le_bytes();
+                for (d, s) in chunk.iter_mut().zip(v.iter()) {
+                    *d = *s;
+                }
+            }
+        } else {
+            self.inner.fill_bytes(dest)
+        }
+    }
+    fn try_fill_bytes(&mut self, dest: &mut [u8]) -> Result<(), rand::Error> {
+        self.fill_bytes(dest);
+        Ok(())
+    }
+}
+
+/// Installs a virtual clock (milliseconds) on this thread.
+pub fn install_clock(start_ms: u64) {
+    CLOCK_MS.with(|c| *c.borrow_mut() = Some(start_ms));
+}
+
+pub fn clear_clock() {
+    CLOCK_MS.with(|c| *c.borrow_mut() = None);
+}
+
+/// Advances the virtual clock; returns false if none is installed.
+pub fn advance_clock(ms: u64) -> bool {
+    CLOCK_MS.with(|c| {
+        let mut guard = c.borrow_mut();
+        match guard.as_mut() {
+            Some(t) => {
+                *t = t.saturating_add(ms);
+                true
+            }
+            None => false,
+        }
+    })
+}
+
+pub fn clock_now() -> Option<u64> {
+    CLOCK_MS.with(|c| *c.borrow())
+}
+
+/// Stand-in for the `Instant` taken at the start of a run.
+pub struct VClock {
+    real: Instant,
+    virt_start: Option<u64>,
+}
+
+impl VClock {
+    pub fn new(real: Instant) -> Self {
+        VClock {
+            real,
+            virt_start: clock_now(),
+        }
+    }
+    pub fn elapsed(&self) -> Duration {
+        match (self.virt_start, clock_now()) {
+            (Some(s), Some(n)) => Duration::from_millis(n.saturating_sub(s)),
+            _ => self.real.elapsed(),
+        }
+    }
+}
